@@ -379,6 +379,11 @@ func genC17Expr(r *core.Rng) c17Expr {
 			c.lo, c.hi = math.MinInt, math.MaxInt
 		}
 		sql := fn + "(v)"
+		// DISTINCT inside the function: the values of the row's own frame, each once
+		dist := r.P(30) && fn != "LISTAGG" && fn != "COUNT*"
+		if dist {
+			sql = fn + "(DISTINCT v)"
+		}
 		switch fn {
 		case "LISTAGG":
 			sql = "LISTAGG(v, ',')"
@@ -391,6 +396,17 @@ func genC17Expr(r *core.Rng) c17Expr {
 		}
 		return c17Expr{sql: sql + " OVER (" + c.sql + ")", clause: c, float: fn == "SUM" || fn == "AVG" || fn == "usum", needSame: !withOrder, eval: func(_ []c17Row, _ int, fr []c17Row) string {
 			nn := nonNull(fr)
+			if dist {
+				seen := map[int]bool{}
+				var u []int
+				for _, x := range nn {
+					if !seen[x] {
+						seen[x] = true
+						u = append(u, x)
+					}
+				}
+				nn = u
+			}
 			sum := 0
 			for _, x := range nn {
 				sum += x
